@@ -429,16 +429,19 @@ def allClose (tol : Rat) : List Sc → List Sc → Bool
   | x :: xs, y :: ys => Sc.closeB tol x y && allClose tol xs ys
   | _, _ => false
 
-/-- value agreement, sample by sample -/
+/-- value agreement, sample by sample; a scalar stands for the array of that value at every sample
+(sympy may simplify `t - t` to `0`, numpy broadcasts) -/
 def Val.Close (tol : Rat) : Val → Val → Prop
   | .sc a, .sc b => Sc.Close tol a b
   | .vec xs, .vec ys => xs.length = ys.length ∧ ∀ (i : Nat) (x y : Sc), xs[i]? = some x → ys[i]? = some y → Sc.Close tol x y
-  | _, _ => False
+  | .sc a, .vec ys => ∀ y ∈ ys, Sc.Close tol a y
+  | .vec xs, .sc b => ∀ x ∈ xs, Sc.Close tol x b
 
 def Val.closeB (tol : Rat) : Val → Val → Bool
   | .sc a, .sc b => Sc.closeB tol a b
   | .vec xs, .vec ys => allClose tol xs ys
-  | _, _ => false
+  | .sc a, .vec ys => ys.all (fun y => Sc.closeB tol a y)
+  | .vec xs, .sc b => xs.all (fun x => Sc.closeB tol x b)
 
 /-- the property's core clause for one evaluation: the implementation returned `got` for `e` in `ρ` -/
 def Agrees (tol : Rat) (ρ : Env) (e : Expr) (got : Val) : Prop :=
@@ -544,18 +547,33 @@ def pyOp? : Sexp → Option PyOp
   | .atom "floordiv" => some .floordiv | .atom "rfloordiv" => some .rfloordiv
   | _ => none
 
+/-- a formula given directly, or as the result of one of the modelled operations:
+`(build op self other)` (operator of `ExpressionScalar`), `(subst σ e)` (`evaluate_symbolic` with
+expressions), `(partial (ρ₁ ρ₂ …) e)` (successive `evaluate_symbolic` with numbers / arrays) -/
+def formula? : Sexp → Option Expr
+  | .list [.atom "build", op, self, other] => do
+      let op ← pyOp? op; let s ← Expr.ofSexp self; let o ← Expr.ofSexp other
+      some (op.build s o)
+  | .list [.atom "subst", sigma, e] => do
+      let σ ← subst? sigma; let e ← Expr.ofSexp e
+      some (subst σ e)
+  | .list [.atom "partial", .list envs, e] => do
+      let ρs ← envs.mapM env?; let e ← Expr.ofSexp e
+      some (ρs.foldl (fun e ρ => substNum ρ e) e)
+  | s => Expr.ofSexp s
+
 def handle : List Sexp → Sexp
   | [.atom "eval", env, e] =>
-    match env? env, Expr.ofSexp e with
+    match env? env, formula? e with
     | some ρ, some e => resS (eval ρ e)
     | _, _ => Sexp.err "bad-args"
   | [.atom "judge", env, e, got, tol] =>
     -- verdict on a value returned by the implementation
-    match env? env, Expr.ofSexp e, val? got, rat? tol with
+    match env? env, formula? e, val? got, rat? tol with
     | some ρ, some e, some got, some tol =>
       match eval ρ e with
       | .error err => .list [.atom "undefined", errS err]
-      | .ok v => if Val.closeB tol v got then .list [.atom "ok", valS v]
+      | .ok v => if agreesB tol ρ e got then .list [.atom "ok", valS v]
                  else .list [.atom "violates", .atom "value-differs", valS v]
     | _, _, _, _ => Sexp.err "bad-args"
   | [.atom "subst-eval", env, sigma, e] =>
@@ -563,15 +581,6 @@ def handle : List Sexp → Sexp
     match env? env, subst? sigma, Expr.ofSexp e with
     | some ρ, some σ, some e => .list [.atom "subst", resS (eval ρ (subst σ e)), resS (eval (ρ.after σ) e)]
     | _, _, _ => Sexp.err "bad-args"
-  | [.atom "partial", .list envs, e] =>
-    -- successive partial numeric substitutions, then evaluation in the empty scope
-    match envs.mapM env?, Expr.ofSexp e with
-    | some ρs, some e => resS (eval Env.empty (ρs.foldl (fun e ρ => substNum ρ e) e))
-    | _, _ => Sexp.err "bad-args"
-  | [.atom "build", op, env, self, other] =>
-    match pyOp? op, env? env, Expr.ofSexp self, Expr.ofSexp other with
-    | some op, some ρ, some s, some o => resS (eval ρ (op.build s o))
-    | _, _, _, _ => Sexp.err "bad-args"
   | [.atom "cmp3", c, e₁, e₂] =>
     match cmp? c, Expr.ofSexp e₁, Expr.ofSexp e₂ with
     | some c, some e₁, some e₂ =>
